@@ -534,7 +534,9 @@ async fn main(plan: Plan) -> Outcome {
             }
         } else if let Some(_e) = &error {
             // (c) a non-retried failure surfaces after all rows of the pages delivered before it.
-            let failed_page = reqs.iter().rev().find(|r| !matches!(r.fault, PageFault::None | PageFault::Slow)).and_then(|r| r.page);
+            // The page the stream failed at: the furthest page with a failed attempt (pages
+            // only advance; with speculative copies the mock's arrival order is not page order).
+            let failed_page = reqs.iter().filter(|r| !matches!(r.fault, PageFault::None | PageFault::Slow)).filter_map(|r| r.page).max();
             if let Some(fp) = failed_page {
                 let rows_before: usize = pp.sizes[..fp].iter().sum();
                 if seen.len() != rows_before {
